@@ -13,14 +13,14 @@ PROPERTY = "C17"
 LEAN_MODULES = ["TapkeeVerif.Props.C17"]
 LEAN_EXES = ["model_c17"]
 REQUIRED_THEOREMS = [
-    "TapkeeVerif.Tsne.sqEuclid_refuted",
-    "TapkeeVerif.Tsne.sqEuclid_partial",
+    "TapkeeVerif.Tsne.sqEuclid_correct",
+    "TapkeeVerif.Tsne.sqEuclid_operator_matters",
     "TapkeeVerif.Tsne.bisect_bracket",
     "TapkeeVerif.Tsne.bisect_found",
     "TapkeeVerif.Tsne.P_dense_sum_one",
     "TapkeeVerif.Tsne.P_dense_symm",
-    "TapkeeVerif.Tsne.sqEuclid_not_metric",
-    "TapkeeVerif.Tsne.bh_neighbours_refuted",
+    "TapkeeVerif.Tsne.sqDistance_not_metric",
+    "TapkeeVerif.Tsne.bh_neighbours_witness",
     "TapkeeVerif.Tsne.symmetrizeCsr_small_partial",
     "TapkeeVerif.Tsne.gradient_identity",
     "TapkeeVerif.Tsne.zeroMean_centres",
@@ -364,9 +364,11 @@ def judge(ctx, binary, lines, label, do_shrink=True, timeout=300):
         m = kv(mo)
         c = m.get("cmp", "")
         if c.startswith("ok:"):
-            e, a = c[3:].split(":")[:2]
-            ctx.stat("comparisons-exact", int(e[1:]))
-            ctx.stat("comparisons-approx", int(a[1:]))
+            parts = c[3:].split(":")
+            ctx.stat("comparisons-exact", int(parts[0][1:]))
+            ctx.stat("comparisons-approx", int(parts[1][1:]))
+            if len(parts) > 2:
+                ctx.stat("comparisons-skipped-near-tie", int(parts[2][1:]))
         elif c.startswith("skip"):
             ctx.stat("comparison-" + c.replace(":", "-"))
         if topic == "vps" and "fid" in m:
@@ -443,8 +445,8 @@ def correspond(ctx):
             ("zm", lambda: c_zm(r.fork()), 40, 600),
             ("sym", lambda: c_sym(r.fork()), 300, 10000),
             ("vps", lambda: c_vps(r.fork(), big=not quick), 250, 8000),
-            ("gpd", lambda: c_gpd(r.fork()), 30, 500),
-            ("gpk", lambda: c_gpk(r.fork()), 30, 500),
+            ("gpd", lambda: c_gpd(r.fork()), 16, 400),
+            ("gpk", lambda: c_gpk(r.fork()), 24, 500),
             ("exg", lambda: c_exg(r.fork(), fd=False), 80, 2500),
             ("exg-fd", lambda: c_exg(r.fork(), fd=True), 10, 200),
             ("bhg", lambda: c_bhg(r.fork()), 120, 5000),
